@@ -31,6 +31,10 @@ LENS = {
 }
 
 
+def _no_dot(c, i):
+    return c != ord('.')
+
+
 class C09(Harness):
     prop = 'C09'
     title = ('bounded symbolic execution of every stock datatype converter on a fully symbolic '
@@ -79,7 +83,7 @@ class C09(Harness):
     def inputs(self, eng, unit):
         pred = None
         if unit['dt'] == 'registry-name':
-            pred = lambda c, i: c != ord('.')
+            pred = _no_dot
         return {'s': self.sym_str(eng, 's', unit['len'], pred)}
 
     def preflight(self, tier):
